@@ -3,7 +3,7 @@
 (A) MC_FM: TLC explores all histories (length <= 3 quick / 4 thorough) of constructor calls in the
 implementation-shaped FormulaManager model (node table keyed by content, constant caches keyed by
 Python value equality) and checks OneObjectPerStructure, AccessorFidelity, TableInjective, CachesAgree.
-(B) TLC-enumerated / simulated call histories over the 90 documented spellings (incl. the infix / method routes) and normalisations
+(B) TLC-enumerated / simulated call histories over the 93 documented spellings (incl. the infix / method routes) and normalisations
 (FMCalls.tla) are replayed in fresh Environments, interleaved with unrelated constructions; identity
 classes and accessor read-back are logged after every call.  (C) TLC validates them against the
 denotations of FMCalls.tla (FMHistoryContract).  Cross-environment: TLC-generated terms (incl. custom
@@ -66,6 +66,9 @@ def make_calls(env):
         "b[0:0]": lambda: b()[0:0], "b[:0]": lambda: b()[:0], "b[0]": lambda: b()[0],
         "BVExtract(b,1,1)": lambda: m.BVExtract(b(), 1, 1), "b[1:]": lambda: b()[1:], "b[1]": lambda: b()[1],
         "p & q": lambda: p() & q(), "p.And(q)": lambda: p().And(q()), "~p": lambda: ~p(),
+        "ForAll(iter([]),p)": lambda: m.ForAll(iter([]), p()),
+        "Exists(generator of nothing,And(p,q))": lambda: m.Exists((v for v in (p(), q()) if v.is_not()), m.And(p(), q())),
+        "ForAll(filter nothing,p)": lambda: m.ForAll(filter(lambda v: False, [q()]), p()),
         "x >= 2": lambda: x() >= 2, "b & c & d": lambda: b() & c() & d(),
     }
 
@@ -233,7 +236,7 @@ def run(ck):
     ck.sample({"calls": [names[c - 1] for c in evs[len(singles) + 3]["calls"]], "obs": evs[len(singles) + 3]["obs"]})
     ck.sample({"kind": "normalize", "src": evs[-1]["src"], "shared": evs[-1]["shared"]})
     ck.cov["exhaustive"] = not quick
-    ck.cov["rule"] = ("constructor-call histories over the 90 spellings/normalisations of FMCalls.tla: all singles, all ordered pairs "
+    ck.cov["rule"] = ("constructor-call histories over the 93 spellings/normalisations of FMCalls.tla: all singles, all ordered pairs "
                       "(every second pair in quick), TLC-simulated histories of length 7; each replayed in a fresh Environment, half of "
                       "them interleaved with unrelated constructions; + normalize() of TLC-generated terms into a second environment. "
                       "non-trivial = histories in which two calls returned the same object / distinct normalized terms")
